@@ -30,11 +30,16 @@ pub fn accept_language(r: &mut Rng) -> String {
     const TAGS: [&str; 28] = [
         "en", "en-US", "en-GB", "de", "de-DE", "fr", "fr-FR", "es", "es-ES", "it", "pt", "pt-BR", "nl", "sv", "da", "fi", "pl", "ru", "ja", "ko", "zh", "zh-CN", "zh-TW", "ar", "he", "tr", "cs", "*",
     ];
-    const QS: [&str; 22] = ["1", "1.0", "0.9", "0.8", "0.7", "0.5", "0.3", "0.1", "0", "0.000", "0.95", "1.000", "NaN", "nan", "inf", "-inf", "-1", "1e3", "1e-40", "", "abc", ".5"];
+    const QS: [&str; 24] = ["1", "1.0", "0.9", "0.8", "0.7", "0.5", "0.3", "0.1", "0", "0.000", "0.95", "1.000", "NaN", "nan", "inf", "-inf", "-1", "1e3", "1e-40", "", "abc", ".5", "\u{e9}", "0.\u{130}"];
     let n = if r.chance(1, 2) { r.urange(21, 48) } else { r.urange(1, 20) };
     let mut parts = vec![];
+    // letters whose lower- or upper-case form has another byte length (dotted capital I, the Kelvin and Angstrom
+    // signs, capital sharp s, ...) and other case-mapping oddities: language tags are case-insensitive, so code
+    // that folds case meets them
+    const ODD: [&str; 12] = ["\u{130}", "\u{130}\u{130}", "tr-\u{130}", "\u{212a}\u{212a}", "\u{212a}", "\u{212b}", "\u{23a}\u{23a}", "\u{23e}", "\u{1e9e}", "\u{2126}x", "\u{df}", "\u{fb03}"];
+    let odd = r.chance(1, 4);
     for _ in 0..n {
-        let t = *r.pick(&TAGS);
+        let t = if odd && r.chance(1, 3) { *r.pick(&ODD) } else { *r.pick(&TAGS) };
         parts.push(match r.below(8) {
             0 => t.to_string(),
             1 => format!("{}; q={}", t, r.pick(&QS)),
